@@ -83,7 +83,7 @@ theorem global_host_if_src : global_host_if = global_host_if_expected := by deci
 def global_host_returns_expected : String := "!res.NetworkRule.Whitelist | matched"
 theorem global_host_returns_src : global_host_returns = global_host_returns_expected := by decide
 
-/-- Global rules are lower-cased when the engine is built. -/
+/-- Global rules go through `lowerRule` when the engine is built. -/
 def global_lower_expected : String := "h"
 theorem global_lower_src : global_lower = global_lower_expected := by decide
 
@@ -98,7 +98,7 @@ theorem engine_returns_src : engine_returns = engine_returns_expected := by deci
 def engine_host_expected : String := "q.Name"
 theorem engine_host_src : engine_host = engine_host_expected := by decide
 
-/-- Profile rules are lower-cased when the engine is built. -/
+/-- Profile rules go through `lowerRule` when the engine is built. -/
 def engine_lower_expected : String := "h"
 theorem engine_lower_src : engine_lower = engine_lower_expected := by decide
 
@@ -202,5 +202,35 @@ theorem tcp_if_conds_src : tcp_if_conds = tcp_if_conds_expected := by decide
 /-- The buffering writer of DoH/DoQ/DNSCrypt keeps the last message only. -/
 def nonwriter_write_expected : String := "{ r.req = req r.res = resp return nil }"
 theorem nonwriter_write_src : nonwriter_write = nonwriter_write_expected := by decide
+
+/-! Fourth deepening: `lowerRule` and the builder of the global settings. -/
+
+/-- `lowerRule`: a pattern that does not start with `/`, or whose only `/` is the first one, is no regular expression. -/
+def lower_rule_if_conds_expected : String := "!strings.HasPrefix(pattern, \"/\") | end == start"
+theorem lower_rule_if_conds_src : lower_rule_if_conds = lower_rule_if_conds_expected := by decide
+
+/-- … those are lower-cased as a whole; a regular expression is kept up to its last `/`, the options are lower-cased. -/
+def lower_rule_returns_expected : String := "strings.ToLower(text) | strings.ToLower(text) | text[:end+1] + strings.ToLower(text[end+1:])"
+theorem lower_rule_returns_src : lower_rule_returns = lower_rule_returns_expected := by decide
+
+def lower_rule_text_expected : String := "strings.TrimSpace(text)"
+theorem lower_rule_text_src : lower_rule_text = lower_rule_text_expected := by decide
+
+def lower_rule_pattern_expected : String := "strings.TrimPrefix(text, \"@@\")"
+theorem lower_rule_pattern_src : lower_rule_pattern = lower_rule_pattern_expected := by decide
+
+def lower_rule_start_expected : String := "len(text) - len(pattern)"
+theorem lower_rule_start_src : lower_rule_start = lower_rule_start_expected := by decide
+
+def lower_rule_end_expected : String := "strings.LastIndexByte(text, '/')"
+theorem lower_rule_end_src : lower_rule_end = lower_rule_end_expected := by decide
+
+/-- `builder.initAccess` hands both lists of the configuration file to `access.NewGlobal`, the subnets unchanged. -/
+def init_access_args_expected : String := "c.BlockedQuestionDomains, netutil.UnembedPrefixes(c.BlockedClientSubnets)"
+theorem init_access_args_src : init_access_args = init_access_args_expected := by decide
+
+/-- The start-up validation of the access section only demands that it exists. -/
+def access_conf_validate_if_expected : String := "c == nil"
+theorem access_conf_validate_if_src : access_conf_validate_if = access_conf_validate_if_expected := by decide
 
 end Agd.Tie.C10
